@@ -215,6 +215,7 @@ func zzCopyReg(failAt int) {
 		}
 	}
 	fault := func(ctx context.Context, req *reghttp.Req, ev *zzreg.Event) int {
+		zzTurnSig(zzSigOf(ev)) // order of requests across the copy goroutines, repeated by the native twin
 		calls++
 		if calls-1 == failAt {
 			// what the client sees once reghttp has given up on the request
@@ -471,4 +472,140 @@ func ZZC03_copy_options() {
 		zzAssert(tgt.Tags[digestTag] == artDig, "C03_digest_tag_copied")
 		zzAssert(hasArt(), "C03_digest_tag_content_copied")
 	}
+}
+
+// zzSharedWorld: an index of two platform images that share their only layer.
+func zzSharedWorld() *zzWorld {
+	zzos.Reset()
+	w := &zzWorld{bytes: map[digest.Digest][]byte{}, mans: map[digest.Digest]bool{}, plain: map[digest.Digest]bool{}}
+	w.pool = append(w.pool, w.put([]byte("l0"), "application/vnd.oci.image.layer.v1.tar+gzip", false))
+	zzSmall = true
+	var entries []string
+	for i := 0; i < 2; i++ {
+		d := w.image(i)
+		entries = append(entries, `{"mediaType":"application/vnd.oci.image.manifest.v1+json","digest":"`+d.Digest.String()+`","size":`+strconv.Itoa(int(d.Size))+`}`)
+	}
+	b := []byte(`{"schemaVersion":2,"mediaType":"application/vnd.oci.image.index.v1+json","manifests":[` + strings.Join(entries, ",") + `]}`)
+	w.top = w.put(b, "application/vnd.oci.image.index.v1+json", true)
+	w.all = append(w.all, w.top.Digest)
+	zzos.Cur.Put(zzSrc+"/oci-layout", []byte(`{"imageLayoutVersion":"1.0.0"}`))
+	zzos.Cur.Put(zzSrc+"/index.json", []byte(`{"schemaVersion":2,"mediaType":"application/vnd.oci.image.index.v1+json","manifests":[{"mediaType":"application/vnd.oci.image.index.v1+json","digest":"`+w.top.Digest.String()+`","size":`+strconv.Itoa(len(b))+`,"annotations":{"org.opencontainers.image.ref.name":"v1"}}]}`))
+	return w
+}
+
+func zzSigOf(ev *zzreg.Event) int {
+	h := 7
+	for _, s := range []string{ev.Method, ev.Repo, ev.Kind, ev.Ref, ev.Query} {
+		for i := 0; i < len(s); i++ {
+			h = (h*31 + int(s[i])) % 1000003
+		}
+		h = (h*31 + 1) % 1000003
+	}
+	return h
+}
+
+// The copy goroutines of ImageCopy under context-bounded request-level
+// interleavings: an index of two images sharing a layer is copied to an empty
+// registry repository; at every request another runnable copy goroutine may be
+// served first (budget of 1-2 such switches). Ordering, completeness and
+// transfer accounting must hold on every such schedule.
+func ZZC03_copy_schedules() {
+	w := zzSharedWorld()
+	ra, rb := zzreg.New(zzHostA), zzreg.New(zzHostB)
+	ra.ValidateRefs, rb.ValidateRefs = false, false
+	net := &zzNet{regs: map[string]*zzreg.Registry{zzHostA: ra, zzHostB: rb}, ext: map[string][]byte{}}
+	reghttp.ZZHook_Client_Do = net.do
+	var rSrc ref.Ref
+	srcIsReg := false
+	rTgt, _ := ref.New(zzHostA + "/tgt:v1")
+	switch zzInt("pairing", 0, 2) {
+	case 0:
+		rSrc, _ = ref.New("ocidir://" + zzSrc + ":v1")
+	case 1:
+		w.zzLoadRepo(ra, "src", "v1")
+		ra.Mount = zzBool("mount_granted")
+		rSrc, _ = ref.New(zzHostA + "/src:v1")
+		srcIsReg = true
+	case 2:
+		w.zzLoadRepo(rb, "src", "v1")
+		rSrc, _ = ref.New(zzHostB + "/src:v1")
+		srcIsReg = true
+	}
+	tagWrites, afterTag := 0, 0
+	ra.OnCommit = func(kind, repo, dg string, body []byte) {
+		if repo != "tgt" {
+			zzFail("C03_copy_writes_only_to_the_target")
+			return
+		}
+		if tagWrites > 0 && kind != "tag" {
+			afterTag++
+		}
+		switch kind {
+		case "manifest":
+			zzAssert(ra.Repo(repo).RefsPresent(body), "C04_children_before_parents")
+		case "tag":
+			tagWrites++
+		}
+	}
+	zzTurnBudget(1 + zzTier())
+	turn := func(ctx context.Context, req *reghttp.Req, ev *zzreg.Event) int {
+		zzTurnSig(zzSigOf(ev))
+		return 0
+	}
+	ra.Before, rb.Before = turn, turn
+	srcRead := map[string]int{}
+	zzos.Cur.ReadObserver = func(name string, n int) {
+		if strings.HasPrefix(name, zzSrc+"/blobs/") && n > 0 {
+			srcRead[strings.TrimPrefix(name, zzSrc+"/blobs/sha256/")]++
+		}
+	}
+	rc := New(WithRegOpts(reg.WithTransport(&http.Transport{})), WithSlog(slog.New(slog.NewTextHandler(io.Discard, nil))))
+	err := rc.ImageCopy(context.Background(), rSrc, rTgt)
+	ra.Before, rb.Before, ra.OnCommit = nil, nil, nil
+	zzos.Cur.ReadObserver = nil
+	zzAssert(err == nil, "C03_copy_without_faults_succeeds")
+	if err != nil {
+		return
+	}
+	zzReach("scheduled_copy_succeeded")
+	tgt := ra.Repo("tgt")
+	zzAssert(tgt.Tags["v1"] == w.top.Digest.String(), "C03_target_tag_is_source_digest")
+	for _, d := range w.all {
+		var got []byte
+		var ok bool
+		if w.mans[d] {
+			got, ok = tgt.Manifests[d.String()]
+		} else {
+			got, ok = tgt.Blobs[d.String()]
+		}
+		zzAssert(ok && string(got) == string(w.bytes[d]), "C03_closure_present_and_identical")
+	}
+	zzAssert(tagWrites == 1 && afterTag == 0, "C04_tag_written_last")
+	srcGets, puts := map[string]int{}, map[string]int{}
+	for _, r := range []*zzreg.Registry{ra, rb} {
+		for _, ev := range r.Log {
+			if ev.Kind == "blob" && ev.Method == "GET" && srcIsReg && ev.Repo == "src" {
+				srcGets[ev.Ref]++
+			}
+			if ev.Kind == "upload" && ev.Method == "PUT" && ev.Status == 201 {
+				puts[queryOf(ev.Query, "digest")]++
+			}
+		}
+	}
+	for _, d := range w.all {
+		if w.mans[d] {
+			continue
+		}
+		zzAssert(srcGets[d.String()]+srcRead[d.Encoded()] <= 1, "C14_each_blob_transferred_at_most_once")
+		zzAssert(puts[d.String()] <= 1, "C14_each_blob_uploaded_at_most_once")
+	}
+}
+
+func queryOf(raw, key string) string {
+	for _, kv := range strings.Split(raw, "&") {
+		if strings.HasPrefix(kv, key+"=") {
+			return strings.Replace(kv[len(key)+1:], "%3A", ":", 1)
+		}
+	}
+	return ""
 }
